@@ -323,7 +323,8 @@ def layer_python(ctx, n):
     for i in range(n):
         e = exprs.gen_expr(rng)
         if rng.random() < .3:
-            e = rng.choice(['len(lst)', 'id', 'str(n) + t', 'sorted(d)[0]', 'max(lst) if lst else 0', '[len(x) for x in (s, t)]',
+            e = rng.choice(['[n for n in range(n)]', '[v for v in (v, s)]', "','.join(s for s in s)", '{t: t for t in (t,)}', 'sum(n for n in lst)',
+                            'len(lst)', 'id', 'str(n) + t', 'sorted(d)[0]', 'max(lst) if lst else 0', '[len(x) for x in (s, t)]',
                             '(lambda a, b=2: a * b)(n)', 'sum(x * x for x in lst)', '{k: len(v) for k, v in d.items()}',
                             'lst[1:][0]', 's.upper()', "'%s-%s' % (n, fl)", 'abs(-n)', 'int(fl) + z',
                             'type(n).__name__', 'list(map(str, lst))', 'any(lst) and all(lst)'])
@@ -402,7 +403,7 @@ class Guarded:
         raise KeyError(k)
 
 
-KEYS = ['a', 'b', 'user', 'rows', 'title', 'name', 'items', 'get', 'keys', 'values']       # incl. names of dict methods
+KEYS = ['a', 'b', 'user', 'rows', 'title', 'name', 'items', 'get', 'keys', 'values', "it's"]       # incl. names of dict methods; a key with an apostrophe
 
 
 def path_tree(rng, depth=0):
@@ -466,6 +467,13 @@ def path_expr(rng, tree):
         elif kids is not None:
             k = rng.choice(sorted(k_ for k_ in kids if k_ != 'fmt') or ['nosuch']) if rng.random() < .85 else 'nosuch'
             form = rng.random()
+            if k == "it's":
+                # only reachable by subscript, written with an escaped quote: the literal is one token, whatever follows it
+                if isinstance(cur, (dict, Row)):
+                    src, val = "%s['it\\'s']" % src, (lambda v=val: v()["it's"])
+                    cur = kids.get(k)
+                    continue
+                k = 'nosuch'
             if form < .7 or k == 'nosuch':
                 src, val = '%s.%s' % (src, k), (lambda v=val, k=k: ref_attr(v(), k))
             elif isinstance(cur, dict) and form < .85:
@@ -530,7 +538,8 @@ def layer_paths(ctx, n):
         elif c == 'interp':
             src, exp = '<p>${%s}</p>' % e, lambda t: '<p>%s</p>' % esc(t)
         elif c == 'pipe':
-            src, exp = '<p tal:content="%s | string:ALT">x</p>' % e, lambda t: '<p>%s</p>' % esc(t)
+            alt = rng.choice(['string:ALT', "'ALT'", "'A' + 'LT'"])
+            src, exp = '<p tal:content="%s | %s">x</p>' % (e, alt), lambda t: '<p>%s</p>' % esc(t)
         elif c == 'exists':
             src, exp = '<p tal:content="exists: %s">x</p>' % e, lambda t: '<p>1</p>'
         elif c == 'define':
@@ -538,7 +547,7 @@ def layer_paths(ctx, n):
         elif c == 'python-prefix':
             src, exp = '<p tal:content="python: %s">x</p>' % e, lambda t: '<p>%s</p>' % esc(t)
         elif c == 'attribute':
-            src, exp = '<p tal:attributes="k %s">x</p>' % e, lambda t: '<p k="%s">x</p>' % esc(t)
+            src, exp = '<p tal:attributes="k %s">x</p>' % e, lambda t: '<p k="%s">x</p>' % exprs.escape_attr(t, '"')
         else:
             src, exp = '<p tal:condition="%s">x</p>' % e, None
         if want[0] == 'VALUE':
@@ -607,7 +616,15 @@ def layer_import(ctx, n):
             dotted = '.'.join(parts)
             shape = rng.choice(['value', 'exists', 'pipe', 'class-attr', 'missing-module', 'missing-in-pipe', 'python-use',
                                 'dead-missing-under-false-condition', 'dead-missing-later-alternative', 'missing-under-on-error',
-                                'dead-existing-never-imported', 'dead-missing-in-unused-macro'])
+                                'dead-existing-never-imported', 'dead-missing-in-unused-macro', 'attribute-shadows-submodule'])
+            # a package whose attribute 'price' (a function) hides its sub-module of the same name, as after
+            # `from .price import price` in __init__.py: the dotted name denotes what Python's attribute access gives
+            shadow_pkg = os.path.join(root, 'vqs%d_%d_%d' % (ctx.shard, os.getpid(), i))
+            os.mkdir(shadow_pkg)
+            with open(os.path.join(shadow_pkg, '__init__.py'), 'w') as f:
+                f.write('from .price import price\n')
+            with open(os.path.join(shadow_pkg, 'price.py'), 'w') as f:
+                f.write('def price():\n    return "function-%d"\n' % i)
             flag = os.path.join(root, 'imported_%d.flag' % i)
             with open(os.path.join(d, 'sidefx%d.py' % i), 'w') as f:
                 f.write('open(%r, "w").close()\nNAME = "side"\n' % flag)
@@ -625,6 +642,8 @@ def layer_import(ctx, n):
                 src, want = '<p tal:content="import: %s.nosuch.NAME">x</p>' % '.'.join(parts[:-1]), 'RAISED ImportError'
             elif shape == 'missing-in-pipe':
                 src, want = '<p tal:content="nothing.x | import: %s.nosuch.NAME">x</p>' % '.'.join(parts[:-1]), 'RAISED ImportError'
+            elif shape == 'attribute-shadows-submodule':
+                src, want = '<p tal:define="p import: %s.price" tal:content="p()">x</p>' % os.path.basename(shadow_pkg), '<p>function-%d</p>' % i
             elif shape == 'dead-missing-under-false-condition':
                 # an expression in a part that is not rendered is never evaluated: the optional dependency may be absent
                 src, want = '<p tal:condition="False" tal:content="import: %s.nosuch.NAME">x</p>ok' % '.'.join(parts[:-1]), 'ok'
